@@ -126,6 +126,8 @@ TxChecks(pre, ev, post) ==
     /\ Chk(C14_Auth(pre, ev, post), "C14", "auth", "")
     /\ Chk(C15_Provide(pre, ev), "C15", "provide", "")
     /\ Chk(C16_Create(pre, ev, post), "C16", "create", "")
+    /\ Chk(C16_Requested(pre, ev, post), "C16", "requested", "")
+    /\ Chk(C06_ConfiguredRate(pre, ev, post), "C06", "configured-rate", "")
     /\ Chk(C16_RegistryInv(post), "C16", "registry-inv", "")
     /\ Chk(C17_Update(pre, ev, post), "C17", "update", "")
     /\ Chk(C17_DecimalsInv(post), "C17", "decimals-inv", "")
